@@ -1631,7 +1631,12 @@ impl Block {
                                 //
                                 // Fallback to single-slip case
                                 //
-                                if slip.validate(&blockchain.utxoset) {
+                                // (a Bound slip outside an NFT group carries no tokens : its
+                                // amount was never counted as an output of its transaction, so
+                                // rebroadcasting it as an ATR slip would mint that amount)
+                                if slip.slip_type != SlipType::Bound
+                                    && slip.validate(&blockchain.utxoset)
+                                {
                                     trace!("Regular slip eligible: {}", slip);
                                     outputs.push(slip);
                                     total_nolan_eligible_for_atr_payout += slip.amount;
